@@ -236,7 +236,10 @@ def check_c06(prop, tier, seed):
             for n in suspicious[:40]:
                 ks = sorted(set(ks) | {n, n + 1})
             kp = kill.kill_points(events)
-            outs = common.pmap(kill.kill_at, [(cfg, d, n, digs, tier == 'thorough' or i % 3 == 0) + kp[n]
+            # oracle for "re-running the script continues a valid computation": the continuation from a pristine copy
+            # of each completed checkpoint
+            pristine = dict(common.pmap(kill.pristine_end, [(cfg, d, d, i) for i in range(1, len(snaps) + 1)]))
+            outs = common.pmap(kill.kill_at, [(cfg, d, n, digs, tier == 'thorough' or i % 3 == 0) + kp[n] + (pristine,)
                                               for i, n in enumerate(ks)])
             n_kills += len([o for o in outs if o['killed']])
             bad = [o for o in outs if o['problem']]
